@@ -316,6 +316,14 @@ of_status_t	of_2d_parity_build_repair_symbol (of_2d_parity_cb_t*		ofcb,
 		OF_PRINT_ERROR(("of_2d_parity_build_repair_symbol: Error, bad esi of encoding symbol (%d)", esi_of_symbol_to_build))
 		goto error;
 	}
+	if (encoding_symbols_tab[esi_of_symbol_to_build] == NULL)
+	{
+		if ((encoding_symbols_tab[esi_of_symbol_to_build] = of_calloc (1, ofcb->encoding_symbol_length)) == NULL)
+		{
+			OF_PRINT_ERROR(("of_2d_parity_build_repair_symbol: Error, no memory\n"))
+			goto error;
+		}
+	}
 	parity_symbol = encoding_symbols_tab[esi_of_symbol_to_build];
 	memset (parity_symbol, 0, ofcb->encoding_symbol_length);
 	col_to_build = of_get_symbol_col ((of_cb_t*)ofcb, esi_of_symbol_to_build);
@@ -372,8 +380,9 @@ of_status_t	of_2d_parity_set_available_symbols (of_2d_parity_cb_t*	ofcb,
 	{
 		if (encoding_symbols_tab[i] != NULL)
 		{
-			ofcb->encoding_symbols_tab[i] = of_calloc (1, ofcb->encoding_symbol_length);
-			memcpy (ofcb->encoding_symbols_tab[i], encoding_symbols_tab[i], ofcb->encoding_symbol_length);
+			/* submit it to the decoder (as the LDPC-Staircase codec does) so that the symbol counters,
+			 * the equations and the ownership of the buffers are those the decoding functions expect */
+			of_linear_binary_code_decode_with_new_symbol ((of_linear_binary_code_cb_t*)ofcb, encoding_symbols_tab[i], i);
 		}
 	}
 	OF_EXIT_FUNCTION
